@@ -293,6 +293,16 @@ def r39c(F):
         closures = [F.fns[c] if isinstance(c, str) else c for c in F.closures_of(name)]
         for k, (b, t) in enumerate(sites):
             right = o.at(t["args"][1], b)
+            if "{closure" in name:
+                # the right-hand shape may be read from a variable the closure captured: what the enclosing function put there
+                cap = util.capture_operands(F, fn)
+                if cap is not None:
+                    pf, pb, pops = cap
+                    po = Origins(pf)
+                    for k_ in util.captures_used(fn, t["args"][1]):
+                        if isinstance(k_, int) and k_ < len(pops):
+                            right = set(right) | set(po.at(pops[k_], pb))
+                    closures = closures + [F.fns[c] if isinstance(c, str) else c for c in F.closures_of(pf.name)]
             rc = calls_in(right)
             how = None
             if "ucglib::ast::Shape::with_pos" in rc:
